@@ -20,15 +20,15 @@ import (
 // operating system hands a released ephemeral port to the next program). The next channel must still come, after the
 // reconnect delay, from whatever port is free.
 func TestC14UDPClientWhoseOldPortIsTaken(t *testing.T) {
-	rec := evid.New(t, "C14", "a UDP client endpoint (heartbeats every 15 ms, idle timeout 300 ms, reconnect delay 250 ms) towards a UDP socket of the harness that answers 0..6 datagrams and then falls silent or vanishes, 2..5 times in a row; after drawn deaths the harness binds the source port the dead channel used before the next connection attempt and keeps it: every death is followed by a close event and then, within 12 reconnect delays, by an open event and datagrams from a socket of the client, never two channels at once; non-trivial = the old port was bound by the harness before the next open event; distinct by hash of the plan")
-	rec.Require("old-port-taken-before-the-reconnection", "death-by-silence", "death-by-vanished-peer", "three-deaths-or-more")
+	rec := evid.New(t, "C14", "a UDP client endpoint (heartbeats every 15 ms, idle timeout 300 ms, reconnect delay 250 ms) towards a UDP socket of the harness that answers 0..6 datagrams and then falls silent or vanishes, 3..5 times in a row (each at least once); after drawn deaths the harness binds the source port the dead channel used before the next connection attempt and keeps it: every death is followed by a close event and then, within 12 reconnect delays, by an open event and datagrams from a socket of the client, never two channels at once; non-trivial = the old port was bound by the harness before the next open event; distinct by hash of the plan")
+	rec.Require("old-port-taken-before-the-reconnection", "death-by-silence", "death-by-vanished-peer")
 	evid.Check(t, rec, evid.N(6, 40), func(t *rapid.T) {
 		drawNodeInit(t)
 		c14Hook()
 		restore := gomavlib.VerifSetReconnectPeriod(250 * time.Millisecond)
 		defer restore()
 		const reconnect = 250 * time.Millisecond
-		rounds := rapid.IntRange(2, 5).Draw(t, "deaths")
+		rounds := rapid.IntRange(3, 5).Draw(t, "deaths")
 		type round struct {
 			answers int
 			vanish  bool
@@ -42,6 +42,18 @@ func TestC14UDPClientWhoseOldPortIsTaken(t *testing.T) {
 		}
 		if !anyTake {
 			plan[rapid.IntRange(0, rounds-1).Draw(t, "take_at")].take = true
+		}
+		// both ways of dying in every case
+		nv := 0
+		for _, p := range plan {
+			if p.vanish {
+				nv++
+			}
+		}
+		if nv == 0 {
+			plan[0].vanish = true
+		} else if nv == rounds {
+			plan[rounds-1].vanish = false
 		}
 		port := sim.FreePort()
 		pc, err := net.ListenPacket("udp4", sim.Addr(port))
@@ -207,8 +219,8 @@ func TestC14UDPClientWhoseOldPortIsTaken(t *testing.T) {
 		for c := range cls {
 			cs = append(cs, c)
 		}
-		if rounds >= 3 {
-			cs = append(cs, "three-deaths-or-more")
+		if rounds >= 4 {
+			cs = append(cs, "four-deaths-or-more")
 		}
 		if tookBefore {
 			cs = append(cs, "old-port-taken-before-the-reconnection")
